@@ -27,7 +27,7 @@ type c17Case struct {
 	F c17Fault   `json:"fault"`
 }
 
-var c17Whats = []string{"noniterable", "nofunction", "nofilter", "notest", "missing-template", "unknown-macro", "broken-include", "parent-outside",
+var c17Whats = []string{"noniterable", "nofunction", "nofilter", "notest", "missing-template", "unknown-macro", "broken-include", "broken-import", "broken-embed", "parent-outside",
 	"err-in-cond-branch", "err-in-args", "err-in-literal", "err-in-interp", "err-in-set", "err-in-if", "err-in-for-seq", "err-in-include-name", "err-in-with", "err-in-operand"}
 
 func c17Construct(what string) []*m.N {
@@ -46,6 +46,10 @@ func c17Construct(what string) []*m.N {
 		return []*m.N{{K: "import", X: m.EStr("flib"), S: "fz"}, m.NPrint(&m.E{K: "mcall", S: "nosuch", T: "alias", U: "fz"})}
 	case "broken-include":
 		return []*m.N{{K: "include", X: m.EStr("fbroken")}}
+	case "broken-import":
+		return []*m.N{{K: "import", X: m.EStr("fbroken"), S: "fq"}}
+	case "broken-embed":
+		return []*m.N{{K: "embed", X: m.EStr("fbroken")}}
 	case "parent-outside":
 		return []*m.N{m.NPrint(&m.E{K: "parent"})}
 	case "err-in-cond-branch":
@@ -72,6 +76,17 @@ func c17Construct(what string) []*m.N {
 		return []*m.N{{K: "do", X: m.ECall("id", m.EStr("@@"))}}
 	}
 	return nil
+}
+
+// c17Broken are sources that cannot be parsed, one per kind of failure
+// (lexer errors, unexpected tokens and values, unclosed constructs, malformed
+// tag heads, end of input).
+var c17Broken = []string{
+	"ok {{ 1 + }}", "ok {% frobnicate %}", "ok {{ \"abc }}", "ok {# never closed", "ok {% if x %}open", "ok {{ a ! }}",
+	"ok {% for 1 in xs %}x{% endfor %}", "ok {% for k, 2 in xs %}x{% endfor %}", "ok {% for v in xs unless c %}x{% endfor %}",
+	"ok {{ x is 4 }}", "ok {{ x is 'a' }}", "ok {% embed 'flib' %}{% blok %}{% endembed %}", "ok {% import 'flib' az m %}",
+	"ok {% extends 'flib' %}{% extends 'flib' %}", "ok {% set %}", "ok {% block %}", "ok {{ [1, }}", "ok {{ {a: } }}", "ok {% endif %}",
+	"ok {% macro m( %}{% endmacro %}", "ok {{ f(a : b) }}", "ok {% use 'flib' wiht a as b %}", "ok {{",
 }
 
 func cloneProg(p *m.Program) *m.Program {
@@ -129,7 +144,9 @@ func withConstruct(p *m.Program, pos int, what string) (*m.Program, bool) {
 func c17Req(p *m.Program) *sb.Req {
 	req := execReq(p)
 	req.Templates["flib"] = "{% macro real() %}r{% endmacro %}"
-	req.Templates["fbroken"] = "ok {{ 1 + }}"
+	// the template with a syntax error: one of every kind of parse failure,
+	// chosen by the program
+	req.Templates["fbroken"] = c17Broken[int(hashStr(progKey(p))%uint64(len(c17Broken)))]
 	req.WantWrites = true
 	return req
 }
